@@ -13,7 +13,7 @@ from vp.gen import tables as T
 
 PROPERTY = "C04"
 RULE = ("table = packed structured dtype of 1-6 fields from i1..u8, f4, f8, S1..S12 (scalar or 1-3-d sub-arrays), "
-        "one byte order per table ('<' or '>'), 1-40 rows (1 in 20: up to 200); body zeros or typed random values "
+        "one byte order per table ('<' or '>') or, one table in five, an independent order per field; 1-40 rows (1 in 20: up to 200); body zeros or typed random values "
         "(full-range ints, floats over 600 decades with random mantissas, printable-ASCII strings incl. blanks, "
         "tabs and delimiter characters with NUL padding at the tail only) plus up to 6 special-value overlays "
         "(NaN both signs, +-inf, +-0, denormal, DBL_MIN, 17-digit values, integer extremes, strings with leading/"
@@ -37,7 +37,7 @@ ENTRIES = ["sfile_fn", "sfile_obj", "recfile_obj", "recfile_obj_nrows", "recfile
 
 @st.composite
 def cases(draw):
-    t = draw(T.tables(kind="text", max_fields=6, max_rows=40, big_rows=200))
+    t = draw(T.tables(kind="text", max_fields=6, max_rows=40, big_rows=200, allow_mixed_order=True))
     return {"table": t, "delim": draw(st.sampled_from(T.TEXT_DELIMS)), "entry": draw(st.sampled_from(ENTRIES)),
             "layout": draw(st.sampled_from(["contig", "contig", "contig", "strided"]))}
 
